@@ -394,6 +394,7 @@ class RaggedArray(IndexableArray, np.lib.mixins.NDArrayOperatorsMixin):
             array containing the row sums
         """
         if axis == 0:
+            self.ravel()
             _, column_indexes = self._shape.unravel_multi_index(np.arange(self.size))
             new_dtype = self.dtype
             weights = self.ravel()
